@@ -1154,10 +1154,10 @@ class Arithmetic(Expr):
         # check for single ASCII characters
         if self.expr.startswith('\'') and self.expr.endswith('\''):
             c = self.expr[1:-1]
-            c = c.encode('latin-1', 'backslashreplace').decode('unicode_escape')
             try:
+                c = c.encode('latin-1', 'backslashreplace').decode('unicode_escape')
                 return ord(c)
-            except TypeError:
+            except (TypeError, ValueError):
                 raise AssemblerError('invalid char literal in expr: "{}"'.format(self.expr), line)
 
         try:
@@ -2508,6 +2508,22 @@ def parse_item(line_tokens):
         raise AssemblerError('invalid syntax (expected constant, label, or instruction)', line)
 
 
+# lexing / parsing unpack tokens positionally: a line with missing or extra
+# pieces surfaces as a ValueError / IndexError which gets its Line attached here
+def lex_line(line):
+    try:
+        return lex_tokens(line)
+    except ValueError as e:
+        raise AssemblerError('invalid syntax: {}'.format(e), line)
+
+
+def parse_line(line_tokens):
+    try:
+        return parse_item(line_tokens)
+    except (ValueError, IndexError) as e:
+        raise AssemblerError('invalid syntax: {}'.format(e), line_tokens.line)
+
+
 def resolve_constants(items, constants):
     new_items = []
     for item in items:
@@ -2892,9 +2908,12 @@ def transform_compressible(items, constants, labels):
         for name, preds in criteria.items():
             if unsettled and name not in ['c.jal', 'c.j', 'c.beqz', 'c.bnez']:
                 continue
-            if all(pred(item, position, env) for pred in preds):
-                compressed = name
-                break
+            try:
+                if all(pred(item, position, env) for pred in preds):
+                    compressed = name
+                    break
+            except ValueError as e:
+                raise AssemblerError(str(e), item.line)
 
         # swap out the instruction for its compressed counterpart
         if compressed is not None:
@@ -3266,14 +3285,20 @@ def resolve_sequences(items):
             new_items.append(item)
             continue
 
-        values = [int(value, base=0) for value in item.values]
+        try:
+            values = [int(value, base=0) for value in item.values]
+        except ValueError as e:
+            raise AssemblerError(str(e), item.line)
 
         data = bytearray()
         for value in values:
             fmt = endianness + formats[item.name]
             if value < 0:
                 fmt = fmt.lower()
-            value = struct.pack(fmt, value)
+            try:
+                value = struct.pack(fmt, value)
+            except struct.error as e:
+                raise AssemblerError(str(e), item.line)
             data.extend(value)
         blob = Blob(item.line, bytes(data))
         new_items.append(blob)
@@ -3317,7 +3342,10 @@ def resolve_packs(items):
             new_items.append(item)
             continue
 
-        data = struct.pack(item.fmt, item.imm)
+        try:
+            data = struct.pack(item.fmt, item.imm)
+        except struct.error as e:
+            raise AssemblerError(str(e), item.line)
         blob = Blob(item.line, data)
         new_items.append(blob)
 
@@ -3392,9 +3420,9 @@ def assemble(path_or_source, *, constants=None, labels=None, compress=False, inc
     # read, lex, and parse the source
     lines = read_lines(path_or_source, include_dirs=include_dirs)
     lines = [l for l in lines if len(l) > 0]
-    tokens = [lex_tokens(l) for l in lines]
+    tokens = [lex_line(l) for l in lines]
     tokens = [t for t in tokens if len(t) > 0]
-    items = [parse_item(t) for t in tokens]
+    items = [parse_line(t) for t in tokens]
     items = [i for i in items if i is not None]
     for item in items:
         log.info('parsed file {}, line {}: "{}"'.format(os.path.basename(item.line.file), item.line.number, item))
